@@ -1312,6 +1312,11 @@ func c19ConfigNotRewritten(c *Check, rule string) {
 					continue
 				}
 				if b, ok := fv.Type().Underlying().(*types.Basic); ok && b.Info()&types.IsNumeric != 0 {
+					// a clamp of a value outside the field's domain (a negative count) replaces no bound a user can mean:
+					// the store is unreachable in the worlds "the field is 0" and "the field is 1"
+					if c19OnlyForNegative(c, pk, x, fv) {
+						continue
+					}
 					msg = "line " + itoa(p0(p, l.Pos())) + ": " + exprStr(l) + " is assigned inside the pool: the bound the user configured (0 = never reuse an idle connection) is replaced"
 				}
 			}
@@ -1738,4 +1743,59 @@ func c19ReturnOwnsConn(c *Check, rule string) {
 	// the select's send case: go/cfg puts the comm clause's statement into the case block
 	path, found := r.F.Reach(Query{From: r.Entry(), Inclusive: true, Target: r.F.IsExitPt, Avoid: disposes})
 	c.Hold(rule, "Return:stored-or-closed", r.FI.Decl.Pos(), !found, "Return can end without having stored or closed the connection ("+r.F.Describe(path)+"): the connection stays open and nothing refers to it any more")
+}
+
+// c19OnlyForNegative: statement st (a store into numeric field fv) cannot be reached when fv holds 0 or 1.
+func c19OnlyForNegative(c *Check, pk *packagesPkg, st ast.Node, fv *types.Var) bool {
+	p := c.P
+	info := pk.TypesInfo
+	res := false
+	p.AllFuncs([]*packagesPkg{pk}, func(fi *FuncInfo) {
+		if fi.Decl.Body == nil || !within(fi.Decl.Body, st) {
+			return
+		}
+		fl := p.FlowOfFunc(fi)
+		pt, ok := fl.PtOfNode(st)
+		if !ok {
+			return
+		}
+		unreachable := true
+		for _, val := range []int64{0, 1} {
+			val := val
+			world := fl.World(func(atom ast.Expr) (bool, bool) {
+				be, ok := ast.Unparen(atom).(*ast.BinaryExpr)
+				if !ok || fieldOf(info, be.X) != fv {
+					return false, false
+				}
+				tv, has := info.Types[be.Y]
+				if !has || tv.Value == nil {
+					return false, false
+				}
+				cv, isInt := constInt(tv)
+				if !isInt {
+					return false, false
+				}
+				switch be.Op {
+				case token.LSS:
+					return val < cv, true
+				case token.LEQ:
+					return val <= cv, true
+				case token.GTR:
+					return val > cv, true
+				case token.GEQ:
+					return val >= cv, true
+				case token.EQL:
+					return val == cv, true
+				case token.NEQ:
+					return val != cv, true
+				}
+				return false, false
+			})
+			if _, found := fl.Reach(Query{From: []Pt{fl.Entry()}, Inclusive: true, Target: func(q Pt) bool { return q == pt }, AvoidEdge: world}); found {
+				unreachable = false
+			}
+		}
+		res = unreachable
+	})
+	return res
 }
